@@ -164,7 +164,8 @@ def c17_c(ctx: Ctx):
                                 "a/1/job and a/1/b/2/job) are not found, so a second run tries to create them again (FileExistsError) or never removes them"))
         else:
             out.append(ctx.ok(R, fl, w, "the existing view is walked exhaustively"))
-    av = ctx.fn(LV + ":_analyze_view")
+    # the analysis of the existing view: _analyze_view, or (when it was written out at its only user) _update_view itself
+    av = ctx.prog.funcs.get(LV + ":_analyze_view") or ctx.fn(LV + ":_update_view")
     # roles: _analyze_view returns (obsolete, to_update, new)
     rt = [r for r in body_nodes(av) if isinstance(r, ast.Return) and isinstance(r.value, ast.Tuple) and len(r.value.elts) == 3 and all(isinstance(e, ast.Name) for e in r.value.elts)]
     TU = rt[0].value.elts[1].id if rt else "to_update"
@@ -293,7 +294,7 @@ def c17_e(ctx: Ctx):
 def c17_f(ctx: Ctx):
     """Per-job / per-entry loops are independent: nothing read in one iteration was computed in another."""
     from .lints import per_item_loops, late_binding_in_loops
-    return late_binding_in_loops(ctx, "C17-f", ("signac.linked_view",)) + per_item_loops(ctx, "C17-f", [('signac.linked_view:create_linked_view', 'a job is linked under the path computed for the previous one'), ('signac.linked_view:_update_view', 'a link is created from the data of the previous one'), ('signac.linked_view:_analyze_view', 'a link is classified by the data of the previous one')])
+    return late_binding_in_loops(ctx, "C17-f", ("signac.linked_view",)) + per_item_loops(ctx, "C17-f", [('signac.linked_view:create_linked_view', 'a job is linked under the path computed for the previous one'), ('signac.linked_view:_update_view', 'a link is created from the data of the previous one'), ] + ([('signac.linked_view:_analyze_view', 'a link is classified by the data of the previous one')] if 'signac.linked_view:_analyze_view' in ctx.prog.funcs else []))
 
 
 @rule("C17-g")
@@ -344,7 +345,7 @@ def c17_h(ctx: Ctx):
     # root-level link is recognised as obsolete and replaced
     R = "C17-h"
     bt = ctx.prog.funcs.get(LV + ":_build_tree")
-    av = ctx.prog.funcs.get(LV + ":_analyze_view")
+    av = ctx.prog.funcs.get(LV + ":_analyze_view") or ctx.prog.funcs.get(LV + ":_update_view")
     k = LV + "|same-tokenisation"
     if bt is None or av is None:
         out.append(ctx.inc(R, None, None, "_build_tree / _analyze_view not found", construct=k))
